@@ -1,14 +1,25 @@
 #!/bin/bash
-# MANIFEST.setup_cmd: build everything the checks need from files on disk (offline).
+# MANIFEST.setup_cmd: build everything the registered checks need from files on disk (offline).
 set -u
 root=$(cd "$(dirname "$0")/.." && pwd)
 cd "$root"
 mkdir -p build evidence replays
-for v in verif asan tsan; do tools/build_repo.sh $v || exit 1; done
-for d in harness/*/; do
-  n=$(basename "$d")
-  [ -f "$d/Makefile" ] || continue
-  b=$root/build/repo-verif; [ "$n" = parsex ] && b=$root/build/repo-asan; [ "$n" = tsanx ] && b=$root/build/repo-tsan
-  make -s -C "$d" -j16 B=$b OUT=$root/build/harness/$n R=${VERIF_REPO:-/repo} SRC=${VERIF_REPO:-/repo} || exit 1
-done
+repo=${VERIF_REPO:-/repo}
+# (harness dir, repo build variant) pairs of every registered part
+pairs=$(python3 - <<'P'
+import sys, os
+sys.path.insert(0, "tools")
+import registry
+seen = set()
+for c in registry.CHECKS.values():
+    for p in c["parts"]:
+        seen.add((p["dir"], p.get("variant", "verif")))
+for d, v in sorted(seen):
+    print(d, v)
+P
+)
+for v in $(echo "$pairs" | awk '{print $2}' | sort -u); do tools/build_repo.sh $v || exit 1; done
+echo "$pairs" | while read d v; do
+  make -s -C harness/$d -j16 B=$root/build/repo-$v OUT=$root/build/harness/$d R=$repo SRC=$repo || exit 1
+done || exit 1
 echo "setup ok"
